@@ -115,6 +115,7 @@ def check_polygon(idx, emb, acc, only=None):
     n = len(verts)
     vq = [Q(v) for v in verts]
     p = Path(*[Line(verts[i], verts[(i + 1) % n]) for i in range(n)])
+    p_rep = Path(*([Line(verts[i], verts[(i + 1) % n]) for i in range(n)] + [Line(verts[0], verts[0])]))
     exact = shoelace(vq)
     scale2 = 16.0 if emb != 'small_far' else 1.0     # area tolerance 1e-12*scale2 (coordinates ~1e3: eps*|p|*size)
     base = {'what': 'polygon', 'idx': list(idx), 'emb': emb}
@@ -127,7 +128,8 @@ def check_polygon(idx, emb, acc, only=None):
             acc.violation('area_wrong', sig0, dict(base, q='area'), observed=r, expected=float(exact))
         else:
             a = float(r[1])
-            for tname, fn, want in (('reversed', lambda: p.reversed().area(), -a),
+            for tname, fn, want in (('zero_length_closer', lambda: p_rep.area(), a),
+                                    ('reversed', lambda: p.reversed().area(), -a),
                                     ('translated', lambda: p.translated(3.25 - 1.5j).area(), a),
                                     ('scaled', lambda: p.scaled(2.0, 0.5).area(), a * 1.0),
                                     ('scaled_neg', lambda: p.scaled(-1.5, 2.0).area(), a * -3.0),
@@ -158,6 +160,14 @@ def check_polygon(idx, emb, acc, only=None):
             if r[0] != 'ok' or bool(r[1]) != inside:
                 acc.violation('encloses_wrong', dict(sig0, expected_inside=inside), case, observed=r, expected=inside,
                               detail='%d proper crossings' % rel.count('cross'))
+            if n <= 4:
+                # the same polygon as the library's own polygon converter writes it when the point list repeats
+                # its first point: closed by a Line of length ZERO
+                r2 = outcome(lambda: path_encloses_pt(pt, opt, p_rep))
+                acc.case(dict(case, repeated_first_point=True), cls='encloses_zero_length_closer')
+                if r2[0] != 'ok' or bool(r2[1]) != inside:
+                    acc.violation('encloses_wrong', dict(sig0, expected_inside=inside, zero_length_closing_line=True),
+                                  dict(case, repeated_first_point=True), observed=r2, expected=inside)
 
 
 def small_poly(idx, emb, factor, shift):
@@ -415,7 +425,7 @@ def run_shard(desc, tier, seed):
 
 def expected_classes(tier):
     return ['area/ccw', 'area/cw', 'area/zero_area', 'area/curved', 'area/ellipse', 'encloses/inside', 'encloses/outside',
-            'contained/nested', 'contained/disjoint', 'contained/crossing', 'curved_encloses/inside', 'curved_encloses/outside', 'area/arcs_N1', 'area/arcs_Nmany', 'area_transform/reversed', 'area_transform/scaled_neg', 'area_transform/after_queries']
+            'contained/nested', 'contained/disjoint', 'contained/crossing', 'curved_encloses/inside', 'curved_encloses/outside', 'area/arcs_N1', 'area/arcs_Nmany', 'area_transform/reversed', 'area_transform/scaled_neg', 'area_transform/after_queries', 'encloses_zero_length_closer']
 
 
 def space(tier, seed):
